@@ -92,6 +92,10 @@ def AEAD.Lawful (A : AEAD) : Prop :=
 def AEAD.Sized (A : AEAD) : Prop :=
   ∀ k n p ad, (A.sealF k n p ad).length = p.length + 16
 
+/-- …and `Open` only accepts ciphertexts that are 16 bytes longer than what it returns. -/
+def AEAD.OpenSized (A : AEAD) : Prop :=
+  ∀ k n c ad p, A.openF k n c ad = some p → c.length = p.length + 16
+
 /-- `miscreant.NewAEAD("AES-CMAC-SIV", key, 16)`: error `siv: bad key size` unless 32 or 64. -/
 def keyOk (key : Bytes) : Bool := key.length == 32 || key.length == 64
 
